@@ -28,6 +28,7 @@ type allegReq struct {
 	created  int64
 	voted    map[string]bool
 	slow     bool // the second vote comes two blocks after the first: the request is still open meanwhile
+	late     bool // all votes come one block later than those on the other requests
 }
 
 func (e *Evidence) Name() string { return "evidence" }
@@ -123,7 +124,9 @@ func (e *Evidence) Plan(c *Ctx) []hist.TxSpec {
 		// the same validator is accused twice more in the same block, under other request ids: one request
 		// per accused validator survives the block, the same one on every node
 		for k, by := range []*world.Validator{gen[2], gen[1]} {
-			d := &allegReq{id: fmt.Sprintf("%s-a%d-%d", e.Tag, k+2, c.H), target: gen[0], plan: "guilty", created: c.H, voted: map[string]bool{}}
+			// (the votes on the last one come a block after the votes on the others: if it is still open then, the
+			// validator found guilty in between is found guilty a second time)
+			d := &allegReq{id: fmt.Sprintf("%s-a%d-%d", e.Tag, k+2, c.H), target: gen[0], plan: "guilty", created: c.H, voted: map[string]bool{}, late: k == 1}
 			e.reqs = append(e.reqs, d)
 			out = append(out, e.allege(c, by, d, "further allegation against v0 in the same block under another request id"))
 		}
@@ -135,6 +138,12 @@ func (e *Evidence) Plan(c *Ctx) []hist.TxSpec {
 	}
 	for _, r := range e.reqs {
 		age := c.H - r.created
+		if r.late {
+			if age != 2 {
+				continue
+			}
+			age = 1
+		}
 		if age < 1 || age > 27 {
 			continue
 		}
